@@ -480,6 +480,17 @@ func mergeSchemaSlice(schemas []*IntrospectionQueryResult, mode MergeMode) (*Int
 	if len(schemas) == 0 {
 		return nil, errors.New("no schemas")
 	}
+	// Every two schemas have to be compatible with each other. Folding alone
+	// lets the order decide whether an incompatibility is noticed: an argument
+	// that one schema requires and another does not know goes unnoticed when a
+	// third schema that has it as optional happens to be merged in between.
+	for i := range schemas {
+		for j := i + 1; j < len(schemas); j++ {
+			if _, err := mergeSchemas(schemas[i], schemas[j], mode); err != nil {
+				return nil, err
+			}
+		}
+	}
 	merged := schemas[0]
 	for _, schema := range schemas[1:] {
 		var err error
